@@ -361,6 +361,9 @@ def explore_c05(rng, tier, res, deep=False):
         "type; compile() must accept iff the independent validity judgement (Spec.Valid on the derivation, "
         "parentheses kept) says valid. Non-trivial = distinct (registry, query) judged valid."
     )
+    import spec_examples
+
+    spec_examples.typing_examples(res)  # the ORACLE against RFC 9535's own well-typedness table
     rounds = 80 if tier == "thorough" else (16 if deep else 8)
     per = 600 if tier == "thorough" else 230
     for _ in range(rounds):
